@@ -438,6 +438,15 @@ def replay(rp):
         out['runs'].append({'exit': rc, 'output': so.strip()[-1500:]})
         out['reproduced'] = rc == 1
         return out
+    if rp['target'].startswith(('kkt_optimality_test', 'make_criterion', 'make_ro1')):
+        # KKT residuals: a state with given multipliers against the documented norms recomputed by hand; criterion / initial penalty:
+        # the real AL solver on half-space projections far from the origin (converged => feasible within epsilon)
+        mode = 'kkt' if rp['target'].startswith('kkt_') else 'criterion'
+        exe = replaylib.build_with_library('replay/C05_feas_replay.cpp', 'C05_feas_replay')
+        rc, so, se = replaylib.run_driver(exe, [mode], timeout=900)
+        out['runs'].append({'mode': mode, 'exit': rc, 'output': so.strip()[-1500:]})
+        out['reproduced'] = rc == 1
+        return out
     exe = replaylib.build_with_library('replay/C05_replay.cpp', 'C05_replay')
     tried = set()
     for fo in rp['failed_obligations']:
